@@ -390,10 +390,8 @@ def _read_healsparse_fits_file_and_degrade(filename, pixels, nside_out, reductio
         cov_map_weight = HealSparseCoverage.read(weightfile)
         if cov_map_weight.nside_coverage != cov_map.nside_coverage:
             raise ValueError("The weightfile %s must have same coverage nside." % (weightfile))
-        cov_pix_weight, = np.where(cov_map_weight.coverage_mask)
-        if not np.all(np.isin(_pixels, cov_pix_weight)):
-            raise ValueError("The weightfile %s must have coverage in all the "
-                             "pixels to read." % (weightfile))
+        # (Coverage of the weights is checked pixel by pixel below: it is needed only where
+        # the map has observed pixels.)
         use_weightfile = True
     elif weightfile is not None:
         warnings.warn('Weightfile specified but wmean reduction mode is not set.  Ignoring weightfile',
@@ -525,6 +523,11 @@ def _read_healsparse_fits_file_and_degrade(filename, pixels, nside_out, reductio
                 pix_data = pix_data.ravel()
 
             if use_weightfile:
+                if not cov_map_weight.coverage_mask[pix]:
+                    observed = (pix_data[primary] if is_rec_array else pix_data) != sentinel
+                    if np.any(observed):
+                        raise ValueError("The weightfile %s must have coverage in all the "
+                                         "pixels to read." % (weightfile))
                 row_range_weight = [cov_index_map_temp_weight[pix],
                                     (cov_index_map_temp_weight[pix] + cov_map.nfine_per_cov)]
                 weight_values = wfits.read_ext_data('SPARSE', row_range=row_range_weight, col_range=col_range)
